@@ -90,6 +90,7 @@ GLOBAL_MUTATORS = (
     "set_flush_denormal", "set_default_dtype", "set_default_device", "set_default_tensor_type", "set_float32_matmul_precision",
     "use_deterministic_algorithms", "set_num_threads", "set_num_interop_threads", "manual_seed", "manual_seed_all", "seed",
     "set_rng_state", "set_rng_state_all", "set_detect_anomaly", "set_printoptions", "set_warn_always", "set_autocast_enabled",
+    "fork_rng",  # (restores the generator afterwards: everything drawn inside is replayed by the next draw)
 )
 
 
